@@ -122,8 +122,29 @@ def random_join(chk, kinds, label, runs, length, nitems, ms, seed=None, merge=Fa
     return validate_join(chk, tf, label, prop_tags=prop_tags)
 
 
+def big_join(chk, kinds_prefix, label="realistic-sizes"):
+    """m up to 4096, streams up to 1e5 (1e6 thorough) with repeats/chunking/merge: the Layer-A function evaluated
+    harness-side (too large for TLC); only the cases of the given sketcher families are judged"""
+    of = os.path.join(chk.wd, "big_%s.json" % label)
+    harness("sk", ["big", "out=" + of, "seed=%d" % chk.seed, "thorough=%d" % (0 if chk.tier == "quick" else 1)], timeout=3000)
+    cases = [c for c in json.load(open(of))["cases"] if c["kind"].startswith(tuple(kinds_prefix))]
+    for c in cases:
+        chk.add("evaluations", c["n"])
+        if c["panic"]:
+            chk.violation(dict(kind=c["kind"], op="panic", where=label), dict(kind="join-big", case=c, seed=chk.seed))
+        elif c["bad_positions"]:
+            chk.violation(dict(kind=c["kind"], op="big", where=label), dict(kind="join-big", case=c, seed=chk.seed))
+    chk.cov["realistic_size_cases"] = [dict(kind=c["kind"], m=c["m"], n=c["n"]) for c in cases]
+    log("[%s] %s: %d cases up to m=%d, n=%d, %d bad" % (chk.pid, label, len(cases), max(c["m"] for c in cases),
+                                                        max(c["n"] for c in cases), sum(1 for c in cases if c["bad_positions"] or c["panic"])))
+
+
 def replay_one(chk, path, pid):
     sc = json.load(open(path))["scenario"]
+    if sc.get("kind") == "join-big":
+        log("scenario: %s" % json.dumps(sc))
+        log("re-run the check with VERIF_SEED=%s to reproduce on the current tree" % sc.get("seed"))
+        return 1
     if sc.get("kind") != "join-trace":
         return None
     tf = os.path.join(chk.wd, "one.ndjson")
